@@ -7,4 +7,8 @@ m["engines"] += [
   "kind_free_text": "constructor / validator acceptance vectors"},
  {"name": "dimsets", "path": "spec/DimSets.tla + spec/mc/MC_DimSets.tla + harness/replay_dimsets.py", "serves_properties": ["C14"],
   "kind_free_text": "ordered-list model of DimensionSet histories replayed step by step"},
+ {"name": "stocks", "path": "spec/TimeGrid.tla + Lifetime.tla + Stocks.tla + mc/MC_Stocks.tla + harness/replay_stocks.py, lifetime_closed.py, checks_relational.py",
+  "serves_properties": ["C03", "C08", "C09", "C10", "C16"], "kind_free_text": "exact rational tables from TLC replayed into the stock classes; relational runs"},
+ {"name": "stockobject", "path": "spec/StockObject.tla + mc/MC_StockObject.tla + harness/replay_stockobject.py", "serves_properties": ["C17"],
+  "kind_free_text": "histories of one stock object compared with fresh objects"},
 ]
